@@ -316,8 +316,9 @@ func ruleAR(c *Ctx) {
 	g := r.grouped(r.trans)
 	// which states accumulate?
 	acc := map[int64]bool{}
+	accN := uriAccName(g)
 	for _, t := range g {
-		if v := t.Locals["portNo"]; strings.Contains(v, "10*portNo") {
+		if v := t.Locals[accN]; strings.Contains(v, "10*"+accN) {
 			acc[t.From] = true
 		}
 	}
@@ -343,7 +344,7 @@ func ruleAR(c *Ctx) {
 				continue
 			}
 			z := cur.zero
-			switch v := t.Locals["portNo"]; {
+			switch v := t.Locals[accN]; {
 			case v == "+0":
 				z = true
 			case v == "=" || v == "":
@@ -362,4 +363,16 @@ func ruleAR(c *Ctx) {
 	}
 	c.check(len(bad) == 0, "AR", "ParseURI:portNo-zero-on-entry", token.NoPos,
 		fmt.Sprintf("over the %d reachable (state, accumulator-is-zero) configurations, every entry into a digit-accumulating state happens with portNo == 0, so PortNo is the value of the digits of Port only %v", len(reach), bad))
+}
+
+// uriAccName: the loop-carried local that accumulates decimal digits (x = 10*x + digit), found by its update.
+func uriAccName(g []fsmTrans) string {
+	for _, t := range g {
+		for k, v := range t.Locals {
+			if strings.Contains(v, "10*"+k) {
+				return k
+			}
+		}
+	}
+	return ""
 }
